@@ -101,12 +101,23 @@ func (s deepSite) upFrom(level int, expr string) string {
 	return expr
 }
 
+// enter: make the site's call chain the current context of the virtual inliner (parameter rendering,
+// context facts of extracted helpers follow enteredBy)
+func (s deepSite) enter() {
+	for _, c := range s.chain {
+		if h := helperCallee(c); h != nil {
+			enteredBy[h] = c
+		}
+	}
+}
+
 // render a value of the site's function in the entry's vocabulary
-func (s deepSite) render(v ssa.Value) string { return s.up(render(v)) }
+func (s deepSite) render(v ssa.Value) string { s.enter(); return s.up(render(v)) }
 
 // facts: guards dominating the site in its own function and, for every call on the chain, the
 // guards dominating that call — all in the entry's vocabulary.
 func (w *World) deepFacts(s deepSite) []string {
+	s.enter()
 	seen := map[string]bool{}
 	var out []string
 	add := func(level int, ins ssa.Instruction) {
@@ -371,3 +382,28 @@ func sameHalf(got, base, lo, hi, total string, lenKnown bool) bool {
 }
 
 var _ = token.NoPos
+
+// deepSitesHelpers: like deepSites, but descends only into helpers the rules do not know (vinline.go):
+// the sites a function has "as if the helpers were inlined", one per call chain.
+func (w *World) deepSitesHelpers(entry *ssa.Function, pred func(ssa.Instruction) bool) []deepSite {
+	var out []deepSite
+	var walk func(fn *ssa.Function, chain []*ssa.Call)
+	walk = func(fn *ssa.Function, chain []*ssa.Call) {
+		if len(chain) > 3 {
+			return
+		}
+		instrsFlat(fn, func(ins ssa.Instruction) {
+			if pred(ins) {
+				out = append(out, deepSite{ins, append([]*ssa.Call(nil), chain...)})
+			}
+			if c, ok := ins.(*ssa.Call); ok {
+				if h := helperCallee(c); h != nil {
+					enteredBy[h] = c
+					walk(h, append(chain, c))
+				}
+			}
+		})
+	}
+	walk(entry, nil)
+	return out
+}
